@@ -261,8 +261,8 @@ def run_qos(res, standalone=False):
     gen_status = tr["files"].get("Data/gen/QosGen.v", {})
     st["translator"] = {"Data/gen/QosGen.v": gen_status, "shapes": tr["shapes"]}
     if gen_status.get("status") != "ok":
-        res.notes.append("qos translator met a shape it does not know (%s): the affected functions fall back to the hand model; "
-                         "the window clauses then stand on the hand model + the differential correspondence alone" % gen_status.get("detail", "")[:300])
+        res.notes.append("qos translator met a shape it does not recognise (%s): the obligation 'generated = model' for it no longer checks; "
+                         "after the failing-input search this is reported as a VIOLATION" % gen_status.get("detail", "")[:300])
     pr = vlib.coq_check_props("Props/C06_qos.v", runners=["Run/QosRun.v"])
     st["proof"] = {k: pr.get(k) for k in ("ok", "obligations", "discharged", "axioms", "closed", "theorems", "failed_file", "error", "runners_ok")}
     if standalone:
@@ -304,6 +304,15 @@ def run_qos(res, standalone=False):
             res.cov[k] = st[k]
         res.cov["translator"] = st["translator"]
         res.cov["exhaustive"] = False
+    # search-only probe of the atomicity the model assumes: several goroutines on one real window
+    conc = []
+    for lim in (1, 2, 3):
+        out = vlib.harness(exe, ["concurrent", "-limit", str(lim), "-workers", "8", "-rounds", "20000" if quick else "200000"]).strip()
+        m = re.search(r"max_count_seen=(\d+)", out)
+        conc.append(dict(limit=lim, line=out, exceeded=bool(m) and int(m.group(1)) > lim))
+    st["concurrent_probe"] = conc
+    if standalone:
+        res.cov["concurrent_probe"] = conc
     decide(res, pr, bad, lines, exe, gen_status, st)
     return st
 
@@ -325,9 +334,18 @@ def wrap_in(line):
 
 def decide(res, pr, bad, lines, exe, gen_status, st):
     allbad = sorted(set(bad["hand"] + bad["gen"] + bad["loop"])) if bad is not None else None
-    if pr["ok"] and allbad == []:
+    exceeded = [c for c in st.get("concurrent_probe", []) if c["exceeded"]]
+    unrec = gen_status.get("status") != "ok"
+    if pr["ok"] and allbad == [] and not exceeded and not unrec:
         return
     what = []
+    if unrec:
+        # one entry per function / fact the translator could not recognise: "<Go name>: <reason>"
+        what.append("obligation 'generated = model' no longer checks: the translator does not recognise %s "
+                    "(the model's function is no longer shown to be the source's)" % gen_status.get("detail", "?")[:600])
+    if exceeded:
+        what.append("concurrent probe: a shared window with prefetchCount %d held %s charges at once (%s)" %
+                    (exceeded[0]["limit"], re.search(r"max_count_seen=(\d+)", exceeded[0]["line"]).group(1), exceeded[0]["line"]))
     if not pr["ok"]:
         what.append("proof obligation no longer checks: %s: %s" % (pr.get("failed_file"), (pr.get("error") or "")[:400]))
     if bad is None:
@@ -352,6 +370,13 @@ def decide(res, pr, bad, lines, exe, gen_status, st):
             if j is not None:
                 failing = (l, j)
                 break
+    if failing is None and exceeded:
+        e = exceeded[0]
+        res.violation(dict(kind="qos-concurrent", limit=e["limit"], observation=e["line"], broken=what,
+                           replay_cmd="harness/bin/qos concurrent -limit %d -workers 8 -rounds 200000" % e["limit"]),
+                      True, "prefetch window: %d goroutines sharing one window with prefetchCount %d: more than %d charges outstanding at once (%s)" %
+                      (8, e["limit"], e["limit"], e["line"]))
+        return
     if failing:
         line = shrink(exe, failing[0])
         j = judge(line) or failing[1]
@@ -397,12 +422,19 @@ def finish_as(res, evidence_name):
 
 def replay(path):
     r = json.load(open(path))
-    if r.get("kind") != "qos-case":
+    if r.get("kind") not in ("qos-case", "qos-concurrent"):
         print(json.dumps(r, indent=1))
         return 0
     exe, err = vlib.build_harness("qos")
     if exe is None:
         raise vlib.Infra(err)
+    if r["kind"] == "qos-concurrent":
+        out = vlib.harness(exe, ["concurrent", "-limit", str(r["limit"]), "-workers", "8", "-rounds", "200000"]).strip()
+        print("implementation:", out)
+        m = re.search(r"max_count_seen=(\d+)", out)
+        bad = bool(m) and int(m.group(1)) > int(r["limit"])
+        print("property statement (outstanding charges never exceed prefetchCount):", "VIOLATED" if bad else "holds on this run")
+        return 1 if bad else 0
     kind, init, ops = r["case"].split("|")
     line = replay_line(exe, kind, init, ops.split())
     print("implementation:", line)
